@@ -134,6 +134,25 @@ def sym_like(st_init, tag, modified=None):
 def returned(vc, post_stmts, st):
     """value of the return statement after the loop"""
     rets = [s for s in post_stmts if isinstance(s, ast.Return)]
+    if (len(post_stmts) == 2 and len(rets) == 1 and isinstance(post_stmts[0], ast.Assign) and isinstance(post_stmts[0].value, ast.ListComp)
+            and len(post_stmts[0].targets) == 1 and isinstance(post_stmts[0].targets[0], ast.Name)):
+        # name = [d[x] for x in arr]   -> list of length N with element i = d[arr[i]]; look-ups are safety obligations
+        lc = post_stmts[0].value
+        g = lc.generators[0]
+        ok = (len(lc.generators) == 1 and not g.ifs and isinstance(g.target, ast.Name) and isinstance(g.iter, ast.Name) and isinstance(st.get(g.iter.id), SArr)
+              and isinstance(lc.elt, ast.Subscript) and isinstance(lc.elt.value, ast.Name) and isinstance(st.get(lc.elt.value.id), SDict)
+              and isinstance(lc.elt.slice, ast.Name) and lc.elt.slice.id == g.target.id)
+        if not ok:
+            raise Unsupported("list comprehension after the loop of an unexpected shape")
+        arr, d = st[g.iter.id], st[lc.elt.value.id]
+        ii = z3.Int("lc!i")
+        sink = st.setdefault("__post_safety__", [])
+        st = dict(st)
+        st["__post_safety__"] = sink
+        st[post_stmts[0].targets[0].id] = SList(z3.Lambda([ii], z3.Select(d.val, z3.Select(arr.arr, ii))), arr.n)
+        st["__post_safety__"] += [(f"dict key present (no KeyError) in the list comprehension @{vc.where(lc)}",
+                                  z3.ForAll([ii], z3.Implies(z3.And(0 <= ii, ii < arr.n), z3.Select(d.dom, z3.Select(arr.arr, ii)))))]
+        post_stmts = post_stmts[1:]
     if len(rets) != 1 or len(post_stmts) != 1:
         raise Unsupported("statements after the loop other than a single return")
     v = rets[0].value
@@ -154,21 +173,30 @@ def verification_conditions(name, mutable_arrays=("out",)):
     vc = loopvc.LoopVC(func)
     pre_stmts, loops, post_stmts = vc.split()
     stage_only = contract.get("stage_only", False)
-    if stage_only:
-        # contract of the FIRST loop of a function with several top-level loops; the statements after it are
-        # not part of this stage (the stage's postcondition is its invariant at N, restated by contract["post"])
+    loop_no = contract.get("loop_no", 0)
+    if "n_loops" in contract:
+        # contract of ONE top-level loop of a function with several: the statements between the previous loop and
+        # this one are its initialisation; an earlier stage's proved postcondition is carried in as hypothesis
+        # (contract["carry"]); the statements after the last loop are interpreted only for the last stage
         if len(loops) != contract["n_loops"]:
             raise Unsupported(f"{name}: expected {contract['n_loops']} top-level loops, found {len(loops)}")
+        segs, _ = vc.segments()
+        pre_stmts, post_stmts = segs[loop_no], segs[loop_no + 1]
     elif len(loops) != 1:
         raise Unsupported(f"{name}: expected exactly one loop, found {len(loops)}")
-    loop = loops[0]
+    loop = loops[loop_no]
+    vc.inner_inv = None
     inp, gh = contract["inputs"]()
     arg_names = [a.arg for a in vc.node.args.args]
     missing = [a for a in arg_names if a not in inp]
     if missing:
         raise Unsupported(f"{name}: arguments {missing} are not covered by the contract")
     pre = contract["pre"](inp, gh)
-    st0, hyps0 = init_state(vc, pre_stmts, inp, gh, contract)
+    carried, carry_hyps = contract["carry"](inp, gh) if "carry" in contract else ({}, [])
+    st0, hyps0 = init_state(vc, pre_stmts, {**inp, **carried}, gh, contract)
+    hyps0 = [*carry_hyps, *hyps0]
+    if "inner_inv" in contract:
+        vc.inner_inv = lambda st_entry, st_now, t_, lst_: contract["inner_inv"](inp, gh, st_entry, st_now, t_, lst_)
     # bind the contract's state variables: by name, or -- after a rename of locals -- by role
     # (kind of object and position among the initialisations of that kind)
     alias = {}
@@ -216,6 +244,8 @@ def verification_conditions(name, mutable_arrays=("out",)):
     invk = contract["inv"](inp, gh, S, k)
     Hk = [*H, *[f for _, f in invk], k >= 0, k < inp["N"]]
     paths, safety = vc.iteration(loop, S, k)
+    assumed = list(getattr(vc, "assumed", []))
+    Hk = [*Hk, *[m_ == f_ for m_, f_ in assumed]]
     for pc, cond, desc in safety:
         out.append((f"{name}: safety {desc}", [*Hk, pc, z3.Not(cond)]))
     n_normal = 0
@@ -232,7 +262,12 @@ def verification_conditions(name, mutable_arrays=("out",)):
         for cname, f in inv1:
             out.append((f"{name}: preservation path {pi}: {cname}", [*Hk, p.pc, z3.Not(f)]))
     # the paths cover every case (the body is total): disjunction of path conditions is valid
-    out.append((f"{name}: paths exhaustive", [*Hk, z3.Not(z3.Or(*[p.pc for p in paths]))]))
+    cover = z3.Or(*[p.pc for p in paths])
+    if assumed:
+        cover = z3.substitute(cover, *[(m_, z3.BoolVal(True)) for m_, _ in assumed])
+        out.append((f"{name}: paths exhaustive", [*[h for h in Hk if not any(h.eq(m_ == f_) for m_, f_ in assumed)], z3.Not(cover)]))
+    else:
+        out.append((f"{name}: paths exhaustive", [*Hk, z3.Not(cover)]))
     # post
     SN = sym_like(st0, "N", mod)
     for n in mutable_arrays:
@@ -242,7 +277,10 @@ def verification_conditions(name, mutable_arrays=("out",)):
     HN = [*H, *[f for _, f in invN]]
     SN = dict(SN)
     if not stage_only:
+        SN["__post_safety__"] = []
         SN["__return__"] = returned(vc, post_stmts, SN)
+        for desc, f in SN["__post_safety__"]:
+            out.append((f"{name}: safety {desc}", [*HN, z3.Not(f)]))
     for cname, f in contract["post"](inp, gh, SN):
         out.append((f"{name}: post {cname}", [*HN, z3.Not(f)]))
     # vacuity guard handled by the bounded instance (quantified hypotheses are not decidable for sat)
